@@ -472,7 +472,12 @@ func runDhseqr(t *vlib.T, n int, p prof, f family, bal lapack.BalanceJob, ldx in
 				lwork = max(lwork, v)
 			}
 			before := log.iparm[14]
-			unconv := impl.Dhseqr(job, compz, n, ilo, ihi, hh.d, ld, wr, wi, zd, ldz, poisoned(lwork), lwork)
+			var unconv int
+			if !call(t, "Dhseqr "+ctx, func() {
+				unconv = impl.Dhseqr(job, compz, n, ilo, ihi, hh.d, ld, wr, wi, zd, ldz, poisoned(lwork), lwork)
+			}) {
+				return
+			}
 			if log.iparm[14] > before {
 				usedQR04 = true
 			}
@@ -535,6 +540,7 @@ func runDhseqr(t *vlib.T, n int, p prof, f family, bal lapack.BalanceJob, ldx in
 	if ihi == ilo || n == 0 {
 		alg = "trivial"
 	}
+	log.report(t)
 	t.Outcome(fmt.Sprintf("%s %s", alg, conv))
 	t.Detail(map[string]any{"ilaenv": log.String(), "ilo": ilo, "ihi": ihi})
 }
@@ -681,7 +687,12 @@ func runDgeev(t *vlib.T, n int, p prof, f family, ld [3]int, lw string) {
 			}
 			resetL3()
 			b14 := log.iparm[14]
-			first := impl.Dgeev(jobvl, jobvr, n, as.d, lda, wr, wi, vld, ldvl, vrd, ldvr, poisoned(lwork), lwork)
+			var first int
+			if !call(t, "Dgeev "+ctx, func() {
+				first = impl.Dgeev(jobvl, jobvr, n, as.d, lda, wr, wi, vld, ldvl, vrd, ldvr, poisoned(lwork), lwork)
+			}) {
+				return
+			}
 			if log.iparm[14] > b14 {
 				qr04 = true
 			}
@@ -751,6 +762,7 @@ func runDgeev(t *vlib.T, n int, p prof, f family, ld [3]int, lw string) {
 	if hrdBlocked {
 		hb = "L3"
 	}
+	log.report(t)
 	t.Outcome(fmt.Sprintf("%s %s %s", alg, hb, conv))
 	t.Detail(map[string]any{"ilaenv": log.String()})
 }
